@@ -55,6 +55,14 @@ Definition in_poll_domain (lockp : N) (v : vfs) (l0 l1 : list file) : bool :=
   let fl := poll_domain lockp v l0 l1 in
   negb (fl_shrink_l0 fl) && negb (fl_stale_l1 fl) && negb (fl_shrink_l1 fl).
 
+(** an L1 file starts at or below the file's L1 position and ends beyond it:
+    LTXFiles' seek (minTXID >= maxTXID1 + 1) hides it from every poll, and the
+    next L1 file fails pollLevel's contiguity test, so the poll can never move
+    entries that point into L0 files over to L1 (Go: maxTXID1 seeded from pos by
+    rebuildIndex when the plan holds no L1 file) *)
+Definition l1_straddles (v : vfs) (l1 : list file) : bool :=
+  existsb (fun f => N.leb (f_min f) (v_max1 v) && N.ltb (v_max1 v) (f_max f)) l1.
+
 (** open: FileSize is the largest indexed page, so it is the restored size only
     when no file of the plan has a larger commit than the last one *)
 Definition open_size_domain (infos : list file) : bool :=
